@@ -181,19 +181,19 @@ Definition hash_iter (m : ms) : list hword := flat_map hash_node (preorder m).
 
 (* ------------------------------------------------------------------ display nodes and Ord *)
 Inductive fname :=
-| F_0 | F_1 | F_pk_k | F_pk_h | F_expr_raw_pk_h | F_after | F_older
+| F_0 | F_1 | F_pk_k | F_pk_h | F_expr_raw_pkh | F_after | F_older
 | F_sha256 | F_hash256 | F_ripemd160 | F_hash160
-| F_a | F_s | F_pk | F_pkh | F_expr_raw_pkh | F_c | F_d | F_v | F_j | F_n
+| F_a | F_s | F_pk | F_pkh | F_c | F_d | F_v | F_j | F_n
 | F_t | F_and_v | F_and_n | F_and_b | F_andor | F_or_b | F_or_d | F_or_c
 | F_u | F_l | F_or_i | F_thresh | F_multi | F_sortedmulti | F_multi_a | F_sortedmulti_a.
 
 Open Scope string_scope.
 Definition fname_str (f : fname) : string :=
   match f with
-  | F_0 => "0" | F_1 => "1" | F_pk_k => "pk_k" | F_pk_h => "pk_h" | F_expr_raw_pk_h => "expr_raw_pk_h"
+  | F_0 => "0" | F_1 => "1" | F_pk_k => "pk_k" | F_pk_h => "pk_h" | F_expr_raw_pkh => "expr_raw_pkh"
   | F_after => "after" | F_older => "older" | F_sha256 => "sha256" | F_hash256 => "hash256"
   | F_ripemd160 => "ripemd160" | F_hash160 => "hash160" | F_a => "a" | F_s => "s" | F_pk => "pk"
-  | F_pkh => "pkh" | F_expr_raw_pkh => "expr_raw_pkh" | F_c => "c" | F_d => "d" | F_v => "v"
+  | F_pkh => "pkh" | F_c => "c" | F_d => "d" | F_v => "v"
   | F_j => "j" | F_n => "n" | F_t => "t" | F_and_v => "and_v" | F_and_n => "and_n" | F_and_b => "and_b"
   | F_andor => "andor" | F_or_b => "or_b" | F_or_d => "or_d" | F_or_c => "or_c" | F_u => "u" | F_l => "l"
   | F_or_i => "or_i" | F_thresh => "thresh" | F_multi => "multi" | F_sortedmulti => "sortedmulti"
@@ -207,13 +207,14 @@ Definition fname_cmp (a b : fname) : comparison := String.compare (fname_str a) 
 Definition is_true (m : ms) : bool := match m with MTrue => true | _ => false end.
 Definition is_false (m : ms) : bool := match m with MFalse => true | _ => false end.
 
-(* Terminal::fragment_name, arm by arm in the order of the Rust match *)
+(* Terminal::fragment_name, arm by arm in the order of the Rust match (as of /repo 2d1943a6: a raw key hash is
+   named expr_raw_pkh and c: over it is an ordinary wrapper) *)
 Definition frag_name (m : ms) : fname :=
   match m with
-  | MTrue => F_1 | MFalse => F_0 | MPkK _ => F_pk_k | MPkH _ => F_pk_h | MRawPkH _ => F_expr_raw_pk_h
+  | MTrue => F_1 | MFalse => F_0 | MPkK _ => F_pk_k | MPkH _ => F_pk_h | MRawPkH _ => F_expr_raw_pkh
   | MAfter _ => F_after | MOlder _ => F_older | MSha256 _ => F_sha256 | MHash256 _ => F_hash256
   | MRipemd160 _ => F_ripemd160 | MHash160 _ => F_hash160 | MAlt _ => F_a | MSwap _ => F_s
-  | MCheck x => match x with MPkK _ => F_pk | MPkH _ => F_pkh | MRawPkH _ => F_expr_raw_pkh | _ => F_c end
+  | MCheck x => match x with MPkK _ => F_pk | MPkH _ => F_pkh | _ => F_c end
   | MDupIf _ => F_d | MVerify _ => F_v | MNonZero _ => F_j | MZeroNotEqual _ => F_n
   | MAndV _ r => if is_true r then F_t else F_and_v
   | MAndOr _ _ c => if is_false c then F_and_n else F_andor
@@ -250,7 +251,6 @@ Fixpoint dnodes (m : ms) : list dnode :=
     DNode (frag_name m) 1 ::
     match x with
     | MPkK k | MPkH k => [DKey k]
-    | MRawPkH h => [DRawKeyHash h]
     | _ => dnodes x
     end
   | MAlt x | MSwap x | MDupIf x | MVerify x | MNonZero x | MZeroNotEqual x => DNode (frag_name m) 1 :: dnodes x
